@@ -13,7 +13,8 @@ ID = "C09"
 LEVEL = "exploration"
 RULE = ("valid streams (written by pyjelly and by the reference producer, delimited and single-frame, > 64 KiB ones, and "
         "hand-framed ones whose first frame is exactly 10 / 11 / 12 / 127 / 128 / 130 bytes) are parsed from: "
-        "BytesIO (baseline), a regular file, BufferedReader(file), BytesIO / file positioned after a foreign header (offset > 0), gzip, a non-seekable RawIOBase double that dribbles by "
+        "BytesIO (baseline), a regular file, BufferedReader(file), BufferedReader over a SEEKABLE raw double that dribbles by schedule, gzip over such a double, "
+        "a BufferedReader handed over with only 1-2 bytes of the stream left in its buffer (buffer sizes 16 and 8192), BytesIO / file positioned after a foreign header (offset > 0), gzip, a non-seekable RawIOBase double that dribbles by "
         "schedule (all-1, all-2, all-3, [1,1,k], [2,k], frame boundary +-1, random sizes >= 1), a BufferedReader around that "
         "double (what socket.makefile('rb') / an HTTP response is), and real os.pipe / socketpair sources fed by a "
         "dribbling writer thread (kernel-made short reads, recorded). Oracle: events returned by parse_jelly_flat / "
@@ -112,6 +113,27 @@ def run_source(kind: str, data: bytes, sched, integ: str, entry: str, tmpdir: st
     elif kind == "gzip":
         with gzip.open(io.BytesIO(gzip.compress(data)), "rb") as f:
             r = parse_from(integ, entry, f)
+    elif kind == "seekable-dribble-buffered":
+        raw = sources.SeekableDribbleRaw(data, sched)            # a seekable file on a slow medium, buffered
+        r = parse_from(integ, entry, io.BufferedReader(raw))
+        log = raw.log
+    elif kind == "gzip-over-seekable-dribble":
+        comp = gzip.compress(data)
+        raw = sources.SeekableDribbleRaw(comp, [max(2, x) for x in sched])     # GzipFile reads its magic with one read(2)
+        with gzip.GzipFile(fileobj=raw, mode="rb") as f:
+            r = parse_from(integ, entry, f)
+    elif kind.startswith("buffered-tail"):
+        # the caller consumed a container header through the same BufferedReader: only 1-2 bytes of the stream are left
+        # in its buffer when the parser gets it
+        k, bufsize = {"buffered-tail1-of-16": (1, 16), "buffered-tail2-of-16": (2, 16),
+                      "buffered-tail1-of-8192": (1, 8192), "buffered-tail2-of-8192": (2, 8192)}[kind]
+        pre = b"\x0a" * (bufsize - k)
+        p = os.path.join(tmpdir, "t.bin")
+        with open(p, "wb") as f:
+            f.write(pre + data)
+        with io.BufferedReader(io.FileIO(p, "rb"), buffer_size=bufsize) as f:
+            f.read(len(pre))
+            r = parse_from(integ, entry, f)
     elif kind == "dribble-raw":
         raw = sources.DribbleRaw(data, sched)
         r = parse_from(integ, entry, raw)
@@ -137,7 +159,8 @@ def run_source(kind: str, data: bytes, sched, integ: str, entry: str, tmpdir: st
     return r[0], r[1], log
 
 
-KINDS = ["file", "file-raw-buffered", "bytesio-offset", "file-offset", "gzip", "gzip-file", "bz2-file", "lzma-file", "dribble-raw", "dribble-buffered", "pipe-raw", "pipe-buffered",
+KINDS = ["seekable-dribble-buffered", "gzip-over-seekable-dribble", "buffered-tail1-of-16", "buffered-tail2-of-16",
+         "buffered-tail1-of-8192", "buffered-tail2-of-8192", "file", "file-raw-buffered", "bytesio-offset", "file-offset", "gzip", "gzip-file", "bz2-file", "lzma-file", "dribble-raw", "dribble-buffered", "pipe-raw", "pipe-buffered",
          "socket-raw", "socket-buffered"]
 
 
@@ -212,8 +235,8 @@ def run_shard(ctx):
                     [("all-4096", [4096]), ("all-65536", [65536])]
             kinds = list(KINDS)
             for kind in kinds:
-                these = scheds if kind.startswith("dribble") else [rng.choice(scheds)]
-                if not kind.startswith(("dribble", "pipe", "socket")):
+                these = scheds if kind.startswith(("dribble", "seekable-dribble")) else [rng.choice(scheds)]
+                if not kind.startswith(("dribble", "pipe", "socket", "seekable-dribble", "gzip-over")):
                     these = [("n/a", None)]
                 for sname, sched in these:
                     got, exc, log = run_source(kind, data, sched, integ, entry, tmpdir)
